@@ -144,6 +144,19 @@ func run(s *kernel.Sim, c *scen.Case) {
 		methods = []security.AuthMethod{security.AuthClaimToBe}
 	case "token":
 		methods = []security.AuthMethod{security.AuthToken}
+	case "ssl":
+		// TLS tunnelled in CEDAR messages: every tunnelled record, status and the session
+		// key message belong to the cleartext transcript that the channel must be bound to
+		methods = []security.AuthMethod{security.AuthSSL}
+	}
+	var sw *hs.SSLWorld
+	if p.Shape == "ssl" {
+		var err error
+		if sw, err = hs.NewSSLWorld(); err != nil {
+			s.Violate("harness", "ssl-world", err.Error())
+			return
+		}
+		defer sw.Close()
 	}
 	cache := security.NewSessionCache()
 	mkc := func() *security.SecurityConfig {
@@ -151,11 +164,17 @@ func run(s *kernel.Sim, c *scen.Case) {
 		cfg.SessionCache = cache
 		cfg.TrustDomain = tw.Issuer
 		cfg.Token = tw.Token(hs.Now()-10, hs.Now()+3600)
+		if sw != nil {
+			sw.Client(cfg)
+		}
 		return cfg
 	}
 	mks := func() *security.SecurityConfig {
 		cfg := hs.Cfg(alevel, elevel, methods, hs.AES, security.NoCommand)
 		tw.ServerToken(cfg)
+		if sw != nil {
+			sw.Server(cfg)
+		}
 		return cfg
 	}
 	net := simnet.New(s, simnet.DrawConfig(t))
@@ -284,7 +303,7 @@ func run(s *kernel.Sim, c *scen.Case) {
 	}
 }
 
-var shapes = []string{"noauth", "claimtobe", "token", "resumed", "claimtobe-optenc", "noauth-optenc"}
+var shapes = []string{"noauth", "claimtobe", "token", "resumed", "claimtobe-optenc", "noauth-optenc", "ssl"}
 
 func gen(g *scen.Gen) {
 	seed := g.Seed * 2038074743
